@@ -62,6 +62,9 @@ func abstractions(v cty.Value) []abstraction {
 }
 
 // approx reports "" when the abstract result soundly approximates the concrete one.
+// Approx is the soundness relation of C05: "" when abs soundly approximates conc.
+func Approx(abs, conc cty.Value, path string) string { return approx(abs, conc, path) }
+
 func approx(abs, conc cty.Value, path string) string {
 	abs, _ = abs.Unmark()
 	conc, _ = conc.Unmark()
